@@ -48,7 +48,14 @@ class LazyRead:
     def __init__(self, **kw):
         self.__dict__.update(kw)
         self.reference_name = 'chr1'
-        self.cigarstring = _LazyCigar(kw['ci'])
+        self._cigar = _LazyCigar(kw['ci'])
+
+    @property
+    def cigarstring(self):
+        # pysam: a record that is not aligned has no CIGAR (cigarstring is None)
+        if self.is_unmapped:
+            return None
+        return self._cigar
 
     @property
     def reference_end(self):
@@ -69,6 +76,9 @@ class LazyRead:
         raise KeyError(t)
 
 
+_DECOY = (1000000, 1000001)     # a second blacklisted region of the same contig, listed FIRST although it lies (mostly) to the right: BED files need not be sorted
+
+
 def _l1_filter(read1: bool, read2: bool, proper: bool, unmapped: bool, qcfail: bool, duplicate: bool, mapq: int,
                ci: int, rr: bool, nm_present: bool, nm: int, xi: int, mi: int, start: int,
                r1only: bool, r2only: bool, filterMP: bool, minMQ: int, ppo: bool, no_indels: bool, mbe_set: bool, mbe: int, no_soft: bool,
@@ -85,11 +95,11 @@ def _l1_filter(read1: bool, read2: bool, proper: bool, unmapped: bool, qcfail: b
                     mapping_quality=mapq, ci=ci, rr=rr, nm_present=nm_present, nm=nm, xi=xi, mi=mi, reference_start=start)
     o = dict(r1only=r1only, r2only=r2only, filterMP=filterMP, minMQ=minMQ, proper_pairs_only=ppo, no_indels=no_indels,
              max_base_edits=(mbe if mbe_set else None), no_softclips=no_soft, filterXA=filterXA, dedup=dedup)
-    got = CT.read_should_be_counted(read, S.make_args(o), ({'chr1': [(bs, bs + bw)], 'chr9': [(0, 10 ** 9)]} if bl else None))
+    got = CT.read_should_be_counted(read, S.make_args(o), ({'chr1': [_DECOY, (bs, bs + bw)], 'chr9': [(0, 10 ** 9)]} if bl else None))
     v = dict(unmapped=unmapped, qcfail=qcfail, mapq=mapq, duplicate=duplicate, has_RR=rr, read1=read1, read2=read2, proper=proper,
              has_indel=(ci == 2) | (ci == 3), has_soft=(ci == 1) | (ci == 4), nm_present=nm_present, nm=nm,
              xa_hits_primary=(xi == 1) | (xi == 3), mp_unique=(mi == 1), start=start, end=start + 10)
-    so = dict(o, mbe_set=mbe_set, mbe=mbe, bl=bl, bs=bs, be=bs + bw)
+    so = dict(o, mbe_set=mbe_set, mbe=mbe, bl=bl, bs=bs, be=bs + bw, decoy=_DECOY)
     want = S.passes_sym(v, so)
     return (got == True) == want   # noqa: E712
 
@@ -189,7 +199,7 @@ PROPERTY = dict(
                 by_value='integer, decimal string, non numeric, absent'),
     outside=['pandas export', '--head / --showtags', 'splitFeatures', 'contig selection and BED regions (file iteration)', 'XA tags without the trailing semicolon BWA writes'],
     assumptions=['spec/c11.py is the specification (from the property text and the option help strings)',
-                 'blacklist semantics: a read is excluded when its start or its (exclusive) end coordinate lies in a blacklisted half-open interval',
+                 'blacklist semantics: a read is excluded when its aligned span [reference_start, reference_end) overlaps a blacklisted half-open BED interval', 'an unmapped record has no CIGAR (cigarstring None), as pysam reports it',
                  'multimapping hits = alternative hits listed in XA + the primary alignment'],
     trusted=['stubs/fakeread.py', 'spec/c11.py'],
 )
